@@ -1951,10 +1951,10 @@ func runApps(m sink, c *Case, s *sut) {
 	}
 }
 
-// TRIAGE-PENDING: an array whose ITEMS carry a format an application registers itself (api.RegisterFormat; the
-// items are bound to the registered Go type) is answered 422 "<name>.0 in <location> must be of type string" for
-// valid items on the unchanged tree, in a single application too (witness: /tmp/alarms5/C03-array-of-registered-format-items.json).
-// Such arrays are not generated for two-application cases until that is triaged; set to false to generate them.
+// An array whose ITEMS carry a string format held in a named string type (uuid, email, ..., or a format an application registers
+// itself) was answered 422 "<name>.0 in <location> must be of type string" for valid items, in a single application too; once
+// that was repaired (694d891) invalid items turned out to be accepted, because the dependency's validators do not check item
+// formats (repaired by d0893b3). Both are pinned; such arrays are generated for two-application cases (true would leave them out).
 const triagePendingRegisteredItems = false
 
 // freshFormats counts the format names handed out to two-application cases: every declaration of such a case
